@@ -826,7 +826,8 @@ class Interp:
         if isinstance(it, VDict):
             return VUnknown("key@%s" % sid, "str")
         if isinstance(it, VTens):
-            return self.ops.index_tensor(self, it, [VNum("int", T.sym("i@%s" % sid), nonneg=True)], st)
+            # the first iteration takes row 0, the generic one row i (the same position symbol an enumerate / range counter has)
+            return self.ops.index_tensor(self, it, [VConst(0) if first else VNum("int", T.sym("i@%s" % sid), nonneg=True)], st)
         if isinstance(it, VObj):
             # iteration protocol on repo objects: use __iter__ if it returns iter(list attr)
             m = it.inst.cls.find_method("__iter__") if it.inst.cls else None
@@ -1123,10 +1124,13 @@ class Interp:
             last = self.eval(e)
             if i == len(node.values) - 1:
                 return last
-            t = self.decide(self.truth(last), e, value=last)
-            if is_and and not t:
-                return last
-            if (not is_and) and t:
+            known = self.truth(last)
+            t = self.decide(known, e, value=last)
+            if (is_and and not t) or ((not is_and) and t):
+                # a boolean whose truth was just decided on this path IS that truth value: asking again (the enclosing `if`)
+                # must not fork a second time into a path that contradicts this one
+                if known is None and getattr(last, "kind", None) == "bool" and not isinstance(last, VTens):
+                    return VConst(bool(t))
                 return last
         return last
 
@@ -1214,7 +1218,7 @@ class Interp:
                 ok = True
                 for c in g.ifs:
                     cv = self.eval(c)
-                    if not self.decide(self.truth(cv), c):
+                    if not self.decide(self.truth(cv), c, value=cv):
                         ok = False
                         break
                 if ok:
